@@ -75,19 +75,21 @@ type Sched struct {
 	realStart   int64
 	wallTick    int64
 
-	Steps     int64
-	Switches  int64
-	Decisions int64
-	LockWaits int64
-	Spawned   int64
-	BudgetHit bool
-	ClockSkew []string // infrastructure problems: clock moved while the baton was held
-	panics    []PanicInfo
-	grantAt   time.Time
-	fp        uint64 // schedule fingerprint
-	pairs     map[uint64]struct{}
-	OnSwitch  func(from, to *Task, site int)
-	epoch     time.Time
+	Steps       int64
+	Switches    int64
+	Decisions   int64
+	LockWaits   int64
+	LockHandoff bool // FIFO hand-off of keyed locks (see AcquireK)
+	lockQ       map[any][]*Task
+	Spawned     int64
+	BudgetHit   bool
+	ClockSkew   []string // infrastructure problems: clock moved while the baton was held
+	panics      []PanicInfo
+	grantAt     time.Time
+	fp          uint64 // schedule fingerprint
+	pairs       map[uint64]struct{}
+	OnSwitch    func(from, to *Task, site int)
+	epoch       time.Time
 }
 
 type SiteInfo struct {
@@ -515,6 +517,103 @@ func Acquire(site int, try func() bool) {
 		s.mu.Unlock()
 		s.awaitGrant(t)
 	}
+}
+
+// AcquireK / ReleaseK: like Acquire / Release, for a mutex whose identity (key, its address) is known.
+// With Sched.LockHandoff the lock is handed to its waiters in arrival order and nobody barges in:
+// this is what sync.Mutex does in starvation mode, i.e. whenever a waiter has been waiting for more
+// than a millisecond - the normal case behind a holder that sleeps. Without it the released lock
+// goes to whichever contender the strategy runs first (sync.Mutex in normal mode).
+func AcquireK(site int, key any, try func() bool) {
+	s := S
+	if s == nil || !s.LockHandoff {
+		Acquire(site, try)
+		return
+	}
+	Yield(site)
+	t := s.cur
+	for {
+		s.mu.Lock()
+		q := s.lockQ[key]
+		mayTry := len(q) == 0 || q[0] == t
+		s.mu.Unlock()
+		if mayTry && try() {
+			s.mu.Lock()
+			if q := s.lockQ[key]; len(q) > 0 && q[0] == t {
+				s.lockQ[key] = q[1:]
+			}
+			s.mu.Unlock()
+			return
+		}
+		if s.stopping {
+			panic(stopSignal{})
+		}
+		synctest.Wait()
+		s.mu.Lock()
+		if s.stopping {
+			s.mu.Unlock()
+			panic(stopSignal{})
+		}
+		if t.atomic > 0 {
+			t.broken = true
+		}
+		queued := false
+		for _, x := range s.lockQ[key] {
+			if x == t {
+				queued = true
+			}
+		}
+		if !queued {
+			if s.lockQ == nil {
+				s.lockQ = map[any][]*Task{}
+			}
+			s.lockQ[key] = append(s.lockQ[key], t)
+		}
+		t.state = stLockWait
+		t.site = site
+		s.LockWaits++
+		s.handoverLocked(t, site)
+		s.mu.Unlock()
+		s.awaitGrant(t)
+	}
+}
+
+func ReleaseK(site int, key any, unlock func()) {
+	s := S
+	if s == nil || !s.LockHandoff {
+		Release(site, unlock)
+		return
+	}
+	if s.stopping {
+		return
+	}
+	unlock()
+	s.mu.Lock()
+	// wake the head of this lock's queue, and every waiter of other locks (their holders may have
+	// released through the plain path)
+	var head *Task
+	if q := s.lockQ[key]; len(q) > 0 {
+		head = q[0]
+	}
+	for _, t := range s.tasks {
+		if t.state != stLockWait {
+			continue
+		}
+		if t == head || !s.queuedBehind(key, t) {
+			t.state = stParked
+			s.parked = append(s.parked, t)
+		}
+	}
+	s.mu.Unlock()
+}
+
+func (s *Sched) queuedBehind(key any, t *Task) bool {
+	for i, x := range s.lockQ[key] {
+		if x == t && i > 0 {
+			return true
+		}
+	}
+	return false
 }
 
 func Release(site int, unlock func()) {
